@@ -240,7 +240,8 @@ Section Go.
           (* compiled_ports = evaluate_ports(input/through ports, parameter_map[None]) *)
           do cports_in <- eval_ports pmn0 (filter non_output ports);
           do pm2 <- put_port_sizes (conns_from None conns) cports_in pm1;
-          do corder <- of_opt (EInternal 5) (children_order children conns);
+          (* a cycle among the children (CycleError from sorted_children) is reported as a compilation error *)
+          do corder <- of_opt ECompile (children_order children conns);
           do pk <- compile_children corder children conns pm2 [];
           let '(pm3, kids) := pk in
           (* children_variables; parameter_map[None] = {**parameter_map[None], **children_variables} *)
